@@ -21,7 +21,8 @@ type annT = struct {
 
 // ---------------------------------------------------------------- strings by class
 
-var strClasses = []string{"empty", "ascii", "crlf", "ls", "nonbmp", "html", "ctrl", "quote", "space", "mixed"}
+// ("mixed" stays last: it draws from the classes between "empty" and itself)
+var strClasses = []string{"empty", "ascii", "crlf", "ls", "nonbmp", "html", "ctrl", "quote", "space", "printf", "mixed"}
 
 var alphabet = map[string][]rune{
 	"ascii":  []rune("abcXYZ019 _-.,:;/=+()[]{}"),
@@ -32,6 +33,8 @@ var alphabet = map[string][]rune{
 	"ctrl":   []rune("\x00\x01\b\f\t\x1f\x7f\v"),
 	"quote":  []rune("\"\\/'u0041"),
 	"space":  []rune(" \t\u00a0\u3000 x"),
+	// printf material: a text that some layer uses as a FORMAT comes out altered ("50% done" -> "50%!d(MISSING)one")
+	"printf": []rune("%%%dsvx!+[1]*5.2f( )\u00e9"),
 }
 
 func genString(r *rand.Rand, class string) string {
@@ -56,6 +59,7 @@ var classRep = map[string]string{
 	"empty": "", "ascii": "plain text 42", "crlf": "line1\r\nline2\nline3\rend\n", "ls": "a\u2028b\u2029c\u0085d",
 	"nonbmp": "g\U0001F600\U00010000\U0010FFFF\u00e9\u6f22\ufffd", "html": "<a href='x'>&amp;</a>", "ctrl": "\x00\x01\b\f\t\x1f\x7f",
 	"quote": "say \"hi\" \\n \\u0041 /", "space": "  lead and trail \t", "mixed": "{\"k\":\"v\\n\"}\n<\u2028>\U0001F600",
+	"printf": "50% done: %d %s %v %% %[1]d %!d(MISSING) %+v %x %5.2f %*d %\u00e9 100%",
 }
 
 // bigString: n bytes of payload crossing escape / multi-byte / line-break cases.
